@@ -299,8 +299,12 @@ const c02Pack = 6
 
 func c02Gen(tier string, emit func(c02Case)) {
 	pack := func(set string, ps []*PExpr, paren bool) {
-		for i := 0; i < len(ps); i += c02Pack {
-			j := i + c02Pack
+		size := c02Pack
+		if set == "g3" {
+			size = 2 // ~10x more documents per path than g2: smaller cases keep each one well under the per-case watchdog
+		}
+		for i := 0; i < len(ps); i += size {
+			j := i + size
 			if j > len(ps) {
 				j = len(ps)
 			}
